@@ -22,8 +22,14 @@ type FakeChain struct {
 	YP      *params.YouParams
 	Head    uint64 // number of the current head header
 	SeedTag byte
-	headers map[uint64]*types.Header
-	Updated []*types.Header
+	// CertValRoot, if set, is the validator root of header 0 (the certificate look-back
+	// of round 32768), so the certificate committee can differ from the stake look-back set
+	CertValRoot *common.Hash
+	// HeaderVersion, if non-zero, is the CurrVersion recorded in the synthetic headers
+	// (the key under which YP is installed in params.Versions); default YP.Version
+	HeaderVersion params.YouVersion
+	headers       map[uint64]*types.Header
+	Updated       []*types.Header
 }
 
 // NewFakeChain creates the table; the current head is number head.
@@ -45,7 +51,15 @@ func (c *FakeChain) header(n uint64) *types.Header {
 	if h, ok := c.headers[n]; ok {
 		return h
 	}
-	h := SeedHeader(n, c.SeedOf(n), c.Set.ValRoot, c.YP.CertValThreshold, c.YP.Version)
+	root := c.Set.ValRoot
+	if n == 0 && c.CertValRoot != nil {
+		root = *c.CertValRoot
+	}
+	ver := c.YP.Version
+	if c.HeaderVersion != 0 {
+		ver = c.HeaderVersion
+	}
+	h := SeedHeader(n, c.SeedOf(n), root, c.YP.CertValThreshold, ver)
 	h.Time = 1000 + n
 	c.headers[n] = h
 	return h
